@@ -12,15 +12,8 @@ pub fn vf_extend<T>(v: &mut Vec<T>, w: Vec<T>)
 { v.extend(w) }
 
 impl NetflowParser {
-    // contract of parse_packet_by_version, proved in unit lib.ppbv
-    #[verifier::external_body]
-    fn parse_packet_by_version<'a>(&'a mut self, packet: &'a [u8]) -> (r: Result<ParsedNetflow, NetflowParseError>)
-        ensures
-            final(self).allowed_versions == old(self).allowed_versions,
-            subres_eq(to_subres(r), pp_spec(state_of(*old(self)), old(self).allowed_versions@, packet@).0),
-            state_of(*final(self)) == pp_spec(state_of(*old(self)), old(self).allowed_versions@, packet@).1,
-            r is Ok ==> r->Ok_0.remaining@.len() + 2 <= packet@.len(),
-    { unimplemented!() }
+    // contract of parse_packet_by_version, proved in unit V.lib.ppbv
+//@ stub stubs/lib_ppbv.rs
 
 //@ fn src/lib.rs - /impl NetflowParser/ parse_bytes
 //@   result: out
